@@ -12,7 +12,7 @@ Objects (see Model/FormulaSpec.lean, Model/Formula.lean):
   every entry equals `denote f k`, and nothing else is present.
 Helper lemmas live in Proofs/Formula*.lean. All theorems are for unbounded nesting depth and length.
 -/
-import ChemModel.Proofs.FormulaCharge
+import ChemModel.Proofs.FormulaInt
 
 namespace ChemModel.C01
 open ChemModel.Formula ChemModel.Gen
@@ -134,11 +134,23 @@ theorem den_agrees_with_ast (ts : Terms) (h : ts.WF) : ∃ occ, Den ts.render oc
 theorem charge_number_digits (ds : List Char) (h : isDigits ds = true) : pyInt ds = some (digitsVal ds) :=
   pyInt_digits ds h
 
-/-- … and anything accepted consists of ASCII digits, single `_` separators and surrounding ASCII whitespace only. -/
+/-- Alphabet bound only: anything `int()` accepts (model) consists of ASCII digits, `_` and ASCII whitespace.
+    (That underscores are single and whitespace only surrounds the number is the content of `charge_number_forms` in the
+    accepting direction; the full `iff` is not proved.) -/
 theorem charge_number_chars (s : List Char) (n : Nat) (h : pyInt s = some n) : ∀ c ∈ s, IntC c :=
   pyInt_chars s n h
 
+/-- **What `int()` accepts on the charge number (model), constructively:** optional ASCII whitespace, non-empty ASCII digit
+    groups joined by single underscores, optional ASCII whitespace — read as the decimal value of all the digits
+    (`" 3"`, `"3 "`, `"1_0"`, `"007"`, `"\t1_2_3\n"`). -/
+theorem charge_number_forms (w1 w2 : List Char) (gs : List (List Char)) (hw1 : ∀ c ∈ w1, isPySpace c = true)
+    (hw2 : ∀ c ∈ w2, isPySpace c = true) (hgs : gs ≠ []) (hall : ∀ g ∈ gs, g ≠ [] ∧ ∀ c ∈ g, c.isDigit = true) :
+    pyInt (w1 ++ (joinUnders gs ++ w2)) = some (digitsVal gs.flatten) :=
+  pyInt_of_groups w1 w2 gs hw1 hw2 hgs hall
+
 example : formulaToComposition "Li@C60 2" = .ok [(3, 1), (6, 120)] := by decide +kernel
+example : formulaToComposition "Si0.9999999B0.0000001" = .ok [(14, 9999999 / 10000000), (5, 1 / 10000000)] := by decide +kernel
+example : formulaToComposition "(Si0.3333333)3" = .ok [(14, 9999999 / 10000000)] := by decide +kernel
 example : formulaToComposition " H 2 O (l) " = .ok [(1, 2), (8, 1)] := by decide +kernel
 example : formulaToComposition "Fe+ 3" = .ok [(26, 1), (0, 3)] ∧ formulaToComposition "Fe+1_0 " = .ok [(26, 1), (0, 10)] := by decide +kernel
 example : formulaToComposition "Fe+1__0" = .error .charge ∧ formulaToComposition "Fe+_1" = .error .charge := by decide +kernel
@@ -155,10 +167,6 @@ theorem get_charge_ok_iff (s : List Char) (q : Int) :
       (s = ['+'] ∧ q = 1) ∨ (s = ['-'] ∧ q = -1) ∨
       (∃ rest n, rest ≠ [] ∧ pyInt rest = some n ∧ ((s = '+' :: rest ∧ q = (n : Int)) ∨ (s = '-' :: rest ∧ q = -(n : Int)))) :=
   getCharge_ok_iff s q
-
-/-- … and the refusal is always a `ValueError`. -/
-theorem get_charge_error_is_value_error (s : List Char) (e : ErrKind) (h : getCharge s = .error e) : e.pyName = "ValueError" := by
-  rw [getCharge_error_kind s e h]; rfl
 
 /-- **`_get_leading_integer` never refuses** and splits off exactly the maximal ASCII digit prefix: `p = ds ++ rest`, `ds` all
     digits, `rest` does not start with a digit, the multiplier is `int(ds)`, or 1 when there is no digit.
